@@ -589,7 +589,7 @@ def bit_coders(ctx, mode):
 CHAIN_QUICK = [(3, 6, 3, 3, "{1}", "TRUE"), (2, 4, 3, 2, "{1,2}", "TRUE"), (2, 6, 4, 2, "{1,2}", "TRUE"), (2, 6, 4, 3, "{2}", "FALSE"), (3, 6, 3, 2, "{2,3}", "FALSE"), (2, 8, 4, 2, "{1,2}", "FALSE")]
 CHAIN_THOROUGH = [(2, 4, 4, 3, "{1,2}", "TRUE"), (2, 4, 4, 3, "{1,2}", "FALSE"), (2, 6, 5, 3, "{1,2}", "TRUE"), (2, 6, 4, 3, "{1,2}", "FALSE"),
                   (3, 6, 3, 2, "{1,2,3}", "TRUE"), (3, 9, 4, 2, "{2,3}", "FALSE"), (2, 8, 5, 3, "{1,2}", "TRUE"), (4, 8, 3, 2, "{2,4}", "FALSE")]
-CHAIN_LAWS = ["StateInv", "RestoreSame", "RestoreSuffix", "RestoreConcat", "StepInverse"]
+CHAIN_LAWS = ["StateInv", "RestoreSame", "RestoreSuffix", "RestoreConcat", "StepInverse", "ProofBridge"]
 
 
 def chain_cases(ctx, mode, laws=None):
@@ -633,8 +633,25 @@ def chain_traces(ctx):
         ctx.require(c)
 
 
+def chain_proofs(ctx):
+    """TLAPS checks spec/proofs/ChainStep.tla (RemaindersStep: on the remainders side of the chain coder decode and encode are mutual
+    inverses for ALL widths, the refill happening exactly when the flush happened, head invariant kept); MC_Chain's invariant
+    ProofBridge (checked by TLC in every reachable state, see chain_cases) ties Chain.tla to the theorem."""
+    import shutil, subprocess, re
+    wd = os.path.join(ctx.work, "proofs_chain")
+    shutil.copytree(os.path.join(core.SPEC, "proofs"), wd, ignore=shutil.ignore_patterns(".tlacache"))
+    p = subprocess.run(["timeout", "1500", "tlapm", "--threads", "6", "--cleanfp", "ChainStep.tla"], cwd=wd, stdout=subprocess.PIPE, stderr=subprocess.STDOUT, text=True)
+    m = re.search(r"All (\d+) obligations proved", p.stdout)
+    if not m:
+        raise core.ToolError("TLAPS did not prove spec/proofs/ChainStep.tla:\n" + p.stdout[-1500:])
+    ctx.classes["tlaps_obligations_proved"] = ctx.classes.get("tlaps_obligations_proved", 0) + int(m.group(1))
+    ctx.assumptions.append("TLAPS 1.6 (SMT back end Z3) checks proofs correctly")
+    ctx.require("tlaps_obligations_proved", 100)
+
+
 @prop("C13")
 def c13(ctx):
+    chain_proofs(ctx)
     py_traces(ctx, ["chain"])
     chain_traces(ctx)
     chain_cases(ctx, "c13")
